@@ -83,7 +83,7 @@ Lemma gen_pq_dequeue_body : forall exp now typ (kv : N * qrec),
   let d := g_pq_dequeue_body (q_expired exp now (snd kv)) (q_removed (snd kv)) (Z.of_N (p_typ (q_prop (snd kv)))) (Z.of_N typ) in
   (negb (q_expired exp now (snd kv)) && negb (q_removed (snd kv)) && N.eqb (p_typ (q_prop (snd kv))) typ
    = match d with ([2], Fall) => true | _ => false end)
-  /\ (negb (q_expired exp now (snd kv)) = match d with ([1], Cont) => false | _ => true end).
+  /\ (negb (q_expired exp now (snd kv)) = match d with ([1], Fall) => false | _ => true end).
 Proof.
   intros. subst d. unfold g_pq_dequeue_body.
   destruct (q_expired exp now (snd kv)), (q_removed (snd kv)); cbn [negb andb]; split; try reflexivity;
